@@ -57,7 +57,26 @@ func genBlocks(r *simcore.Rand, n int, sp *StatePlan) []BlockPlan {
 			}
 			b.Txs = append(b.Txs, tp)
 		}
+		b.Txs = append(b.Txs, genRedelegations(r)...)
 		out = append(out, b)
+	}
+	return out
+}
+
+// genRedelegations: in about half of the blocks one authority is re-pointed two
+// or three times (EIP-7702), so that the block's access list carries several code
+// changes for one account.
+func genRedelegations(r *simcore.Rand) []TxPlan {
+	if !r.Bool(0.5) {
+		return nil
+	}
+	var out []TxPlan
+	a := uint32(r.Intn(nAuthorities))
+	for n := r.Range(2, 3); n > 0; n-- {
+		out = append(out, TxPlan{K: 3, A: a, B: uint32(r.Uint64())})
+	}
+	if r.Bool(0.3) {
+		out = append(out, TxPlan{K: 3, A: uint32(r.Intn(nAuthorities)), B: uint32(r.Uint64())})
 	}
 	return out
 }
@@ -99,6 +118,7 @@ func genSplitStorage(r *simcore.Rand, p *Plan) {
 			}
 			b.Txs = append(b.Txs, tp)
 		}
+		b.Txs = append(b.Txs, genRedelegations(r)...)
 		p.Blocks = append(p.Blocks, b)
 	}
 	p.Pivot0 = r.Intn(2)
